@@ -348,7 +348,7 @@ pub fn c20_different_order_adjacency_map_n2_n3() {
 
 // @verif prop=C20 tier=quick fl=f0 role=clone/matrix t=1200 mem=12
 #[cfg_attr(kani, kani::proof)]
-#[cfg_attr(kani, kani::unwind(8))]
+#[cfg_attr(kani, kani::unwind(10))]
 pub fn c20_clone_matrix_n3() {
     clone_independent::<AdjacencyMatrix, 3>();
 }
